@@ -46,9 +46,10 @@ class FlattenComponentsIFilter(BaseIFilter):
         ):
             glyph = glyphSet.get(glyphName)
             if glyph is not None:
-                flattened = _flattenGlyphComponents(
-                    glyph, interpolatedLayer or glyphSet
-                )
+                # (in every master: one master in which nothing is nested must not
+                # hide that another master's glyph was changed)
+                if _flattenGlyphComponents(glyph, interpolatedLayer or glyphSet):
+                    flattened = True
 
         return flattened
 
